@@ -980,7 +980,11 @@ class _SWV:
             return None
         v = vals[i]
         ax = D_.choice([k for k, n in enumerate(v.shape) if n > 0])
-        return {"op": "sliding_window_view", "args": [i], "w": D_.int(1, v.shape[ax]), "axis": ax - (v.ndim if D_.chance(1, 4) else 0)}
+        n = v.shape[ax]
+        # windows at and around the leaves' block sizes: kernel-selection guards compare exactly these
+        near = sorted({w for c in getattr(D_, "hints", ()) for w in (c - 1, c, c + 1, c + 2) if 1 <= w <= n})
+        w = D_.choice(near) if near and D_.chance(1, 2) else D_.int(1, n)
+        return {"op": "sliding_window_view", "args": [i], "w": w, "axis": ax - (v.ndim if D_.chance(1, 4) else 0)}
 
     @staticmethod
     def np(s, a):
@@ -1059,6 +1063,87 @@ class _Tensordot:
         import dask_array as da
 
         return da.tensordot(a[0], a[1], axes=(tuple(s["axes"][0]), tuple(s["axes"][1])))
+
+
+@op("expand_dims_multi", "shape")
+class _ExpandMulti:
+    """Several inserted axes at once (one ExpandDims node carrying >= 2 new axes), via np.expand_dims
+    with a tuple or via an index with several None entries."""
+
+    @staticmethod
+    def gen(D_, vals):
+        i = _pick(D_, vals, lambda v: 1 <= v.ndim <= 2)
+        if i is None:
+            return None
+        n = vals[i].ndim
+        k = D_.int(2, 3)
+        axes = sorted(D_.subset(range(n + k), k, k))
+        return {"op": "expand_dims_multi", "args": [i], "axes": axes, "via": D_.choice(["expand_dims", "index"])}
+
+    @staticmethod
+    def _index(s, ndim):
+        out, src = [], 0
+        for pos in range(ndim + len(s["axes"])):
+            if pos in s["axes"]:
+                out.append(None)
+            else:
+                out.append(slice(None))
+                src += 1
+        return tuple(out)
+
+    @staticmethod
+    def np(s, a):
+        return np.expand_dims(a[0], tuple(s["axes"]))
+
+    @staticmethod
+    def da(s, a):
+        import dask_array as da
+
+        if s["via"] == "index":
+            return a[0][_ExpandMulti._index(s, a[0].ndim)]
+        return da.expand_dims(a[0], tuple(s["axes"]))
+
+
+def _wsum_chunk(x, weights=None, axis=None, keepdims=False, **kw):
+    return np.sum(x * weights, axis=axis, keepdims=keepdims)
+
+
+def _wsum_agg(x, axis=None, keepdims=False, **kw):
+    return np.sum(x, axis=axis, keepdims=keepdims)
+
+
+@op("wsum", "reduction")
+class _WSum:
+    """da.reduction with the public `weights=` keyword (weights are sliced alongside the data by pushdowns)."""
+
+    @staticmethod
+    def gen(D_, vals):
+        i = _pick(D_, vals, lambda v: 1 <= v.ndim <= 3 and v.dtype.kind in "if" and v.size > 0)
+        if i is None:
+            return None
+        v = vals[i]
+        axis = D_.int(0, v.ndim - 1)
+        return {"op": "wsum", "args": [i], "axis": axis, "keepdims": D_.chance(1, 2), "wshape": D_.choice(["full", "axis"])}
+
+    @staticmethod
+    def _weights(s, shape):
+        if s["wshape"] == "full":
+            return (np.arange(int(np.prod(shape))).reshape(shape) % 5 + 1).astype("f8")
+        sh = [1] * len(shape)
+        sh[s["axis"]] = shape[s["axis"]]
+        return (np.arange(shape[s["axis"]]) % 3 + 1).astype("f8").reshape(sh) * np.ones(shape)
+
+    @staticmethod
+    def np(s, a):
+        w = _WSum._weights(s, a[0].shape)
+        return np.sum(a[0] * w, axis=s["axis"], keepdims=s["keepdims"])
+
+    @staticmethod
+    def da(s, a):
+        import dask_array as da
+
+        w = _WSum._weights(s, a[0].shape)
+        return da.reduction(a[0], _wsum_chunk, _wsum_agg, axis=s["axis"], keepdims=s["keepdims"], dtype=np.result_type(a[0].dtype, "f8"), weights=w)
 
 
 @op("setitem", "setitem")
@@ -1236,6 +1321,7 @@ def program_strategy(min_stmts=1, max_stmts=6, max_leaves=2, family_weights=None
             else:
                 leaves.append(gen_leaf(D_, max_rank=max_rank, max_len=max_len, dtype=D_.choice(dtypes) if dtypes else None, kinds=leaf_kinds))
         vals = [leaf_data(l) for l in leaves]
+        D_.hints = sorted({c for l in leaves for ax in l["chunks"] for c in ax if c > 0})
         stmts = []
         discarded = 0
         target = D_.int(min_stmts, max_stmts)
